@@ -4,6 +4,7 @@
 pub mod attrmodel;
 pub mod cfgmodel;
 pub mod doc;
+pub mod dynde;
 pub mod dynval;
 pub mod engine;
 pub mod evgen;
